@@ -150,7 +150,7 @@ func check(args []string) int {
 		if *tier == "thorough" {
 			*secs = 1500
 		} else {
-			*secs = 160
+			*secs = 200
 		}
 	}
 	if *prof != "" {
